@@ -22,6 +22,8 @@ pub struct ChunkReader {
     max_reads: usize,
     /// async only: an interruption is a read that stays pending (the caller drops the receive future and starts a new one)
     pub pending_mode: bool,
+    /// after the script the peer stays silent with the transport open: a further read would block forever
+    pub idle_after: bool,
 }
 
 impl ChunkReader {
@@ -41,6 +43,7 @@ impl ChunkReader {
             // every read before the end makes progress, so this many reads mean a hang
             max_reads: total + n + 64,
             pending_mode: false,
+            idle_after: false,
         }
     }
 
@@ -51,6 +54,9 @@ impl ChunkReader {
         }
         match self.chunks.pop_front() {
             None => {
+                if self.idle_after {
+                    panic!("a read after everything the peer has sent: the peer is silent and the transport open, so this read blocks forever");
+                }
                 if self.fail {
                     Err(io::Error::new(self.fail_kind, "scripted failure"))
                 } else {
@@ -345,6 +351,9 @@ pub fn run(toks: &[&str]) -> String {
     reader.fail_kind = fail_kind;
     // "ax": the interrupted receive is a future dropped while it waits for the transport (what select! does), then a new receive
     reader.pending_mode = via == Some('x');
+    // tail "idle": the peer sends the script and then stays silent; receive is called exactly <extra> times
+    let idle = toks[3] == "idle";
+    reader.idle_after = idle;
     let transient = reader.transient.clone();
     let res = catch(move || {
         let mut out: Vec<String> = Vec::new();
@@ -367,6 +376,12 @@ pub fn run(toks: &[&str]) -> String {
                 };
                 let (s, more) = show_outcome(got);
                 out.push(s);
+                if idle {
+                    if turn >= extra {
+                        break;
+                    }
+                    continue;
+                }
                 if !more {
                     if transient.replace(false) {
                         if send_between {
@@ -412,6 +427,12 @@ pub fn run(toks: &[&str]) -> String {
                     };
                     let (s, more) = show_outcome(got);
                     out.push(s);
+                    if idle {
+                        if turn >= extra {
+                            break;
+                        }
+                        continue;
+                    }
                     if !more {
                         if transient.replace(false) {
                             if send_between {
